@@ -120,6 +120,13 @@ theorem failure_codes : failureReply 10060 = 6 ∧ failureReply 10061 = 5 ∧ fa
 theorem relay_chunking_independent (chunks chunks' : List Bytes) (h : chunks.flatten = chunks'.flatten) :
     (chunks.map id).flatten = (chunks'.map id).flatten := by simpa using h
 
+/-- regenerated (`Gen.TableWrites`): every assignment to these tables anywhere in the teamserver is an append at the end,
+    a delete of one index, the hand-out split, `nil` / an empty literal, or a slice built up freshly in a local - never a
+    re-slice to length 0 or a filter in place, whose later appends would overwrite what an earlier reader still holds.
+    The models' immutable lists are faithful to the Go slices only under this fact. -/
+theorem relay_table_writes_value_like :
+    aliasingWrites ["SocksCli", "SocksSvr", "PortFwds"] = [] ∧ writtenTables ["SocksCli", "SocksSvr", "PortFwds"] = ["SocksCli", "SocksSvr", "PortFwds"] ∧ Gen.TableWrites.reslicesToZero = [] := by decide
+
 /-- the same on every control-flow path separately (regenerated `Gen.LockPaths`): no early return, branch or case of
     any of these functions leaves a mutex held that a `defer` does not release -/
 theorem table_locks_balanced_every_path : pathsUnbalancedIn ["agent", "socks"] = [] := by decide
